@@ -217,9 +217,20 @@ pub fn inert_between(r: &mut Rng, group_id: Option<u8>, group_n: u8, next_k: u8)
         0 => (nmea_ref::mk(1, 1, None, b"15RTgt0PAso;90TKcjM8h6g208CQ", 0), true, "unfrag-decodable"),
         1 => (nmea_ref::mk(1, 1, Some(9), b"zzzz", 0), true, "unfrag-undecodable"),
         2 => {
-            let mut b = Build::simple(1, 1, None, b"A", b"15RTgt0PAso;90TKcjM8h6g208CQ", 0);
-            b.cks = Some(nmea_ref::xor(&b.body()) ^ 0x40);
-            (b.line(), false, "bad-checksum")
+            // a wrong checksum under every header shape: unfragmented, an opener with the group's
+            // id or another one (it would restart / replace the group if it were looked at before
+            // the checksum), the very fragment the group expects next, a final fragment
+            let other = Some(group_id.map_or(4, |x| ((x as u16 + 3) % 10) as u8));
+            let (mut b, cls) = match r.below(6) {
+                0 => (Build::simple(1, 1, None, b"A", b"15RTgt0PAso;90TKcjM8h6g208CQ", 0), "bad-checksum"),
+                1 => (Build::simple(group_n.max(2), 1, group_id, b"A", &uniq_payload(7200), 0), "bad-checksum-opener-same-id"),
+                2 => (Build::simple(2, 1, other, b"A", &uniq_payload(7201), 0), "bad-checksum-opener-other-id"),
+                3 => (Build::simple(9, 1, None, b"A", &uniq_payload(7202), 0), "bad-checksum-opener-no-id"),
+                4 => (Build::simple(group_n, next_k, group_id, b"A", &uniq_payload(7203), 0), "bad-checksum-next-fragment"),
+                _ => (Build::simple(group_n, group_n, group_id, b"A", &uniq_payload(7204), 0), "bad-checksum-final"),
+            };
+            b.cks = Some(nmea_ref::xor(&b.body()) ^ (1 << r.below(8)));
+            (b.line(), r.bool(), cls)
         }
         3 => (b"$GPGGA,123519,4807.038,N,01131.000,E,1,08,0.9,545.4,M,46.9,M,,*47".to_vec(), false, "malformed"),
         _ => {
